@@ -26,7 +26,9 @@ type c07Case struct {
 	Corpus string `json:"corpus,omitempty"` // scan: base file (Input empty) ...
 	Trunc  int    `json:"trunc,omitempty"`  // ... truncated to this many bytes (-1 = whole file)
 	CRLF   bool   `json:"crlf,omitempty"`
-	How    string `json:"how,omitempty"` // how the input was produced (classification only)
+	How    string `json:"how,omitempty"`   // how the input was produced (classification only)
+	Shape  string `json:"shape,omitempty"` // Target "scale": input family (c07Shapes) ...
+	N      int    `json:"n,omitempty"`     // ... and its smallest size parameter (0 = the shape's default)
 }
 
 var (
@@ -66,21 +68,19 @@ func (c c07Case) input() []byte {
 	return in
 }
 
-// withWatchdog runs f under a generous ceiling; an overrun is retried with ten times the ceiling and only a
-// second overrun is reported. ok=false means "hang".
+// withWatchdog runs f under a generous ceiling (>10^4 times the measured normal cost). hung=true means the call did
+// not return; its goroutine is then still running in this process, so the caller must not evaluate anything else
+// (the framework stops using the process for further cases once a "hang" violation is returned).
 func withWatchdog(size int, f func()) (pi *PanicInfo, hung bool) {
-	ceiling := 5*time.Second + time.Duration(size)*100*time.Microsecond
-	for attempt := 0; attempt < 2; attempt++ {
-		done := make(chan *PanicInfo, 1)
-		go func() { done <- guard(f) }()
-		select {
-		case pi := <-done:
-			return pi, false
-		case <-time.After(ceiling):
-			ceiling *= 10
-		}
+	ceiling := 20*time.Second + time.Duration(size)*200*time.Microsecond
+	done := make(chan *PanicInfo, 1)
+	go func() { done <- guard(f) }()
+	select {
+	case pi := <-done:
+		return pi, false
+	case <-time.After(ceiling):
+		return nil, true
 	}
-	return nil, true
 }
 
 type scanned struct {
@@ -140,7 +140,8 @@ func gbRecordFacts(text string) []gbFacts {
 	var cur *gbFacts
 	inOrigin := false
 	inTable, inQuote := false, false
-	lines := strings.Split(strings.ReplaceAll(text, "\r\n", "\n"), "\n")
+	// gts (go-pars) ends a line at LF, CRLF or a lone CR
+	lines := strings.Split(strings.ReplaceAll(strings.ReplaceAll(text, "\r\n", "\n"), "\r", "\n"), "\n")
 	for _, ln := range lines {
 		// a quoted qualifier value runs until its closing quote, whatever the lines in between look like: a field
 		// name inside it is grammatically not a field, and the harness then makes no claim about the record
@@ -245,6 +246,9 @@ var c07Table = gts.FeatureSlice{
 func c07Check(c c07Case) *Violation {
 	resetQualifierRegistries()
 	defer resetQualifierRegistries()
+	if c.Target == "scale" {
+		return c07ScaleCheck(c)
+	}
 	in := c.input()
 	what := fmt.Sprintf("%s(%s %q)", c.Target, c.How, clipStr(string(in), 80))
 	switch c.Target {
@@ -447,6 +451,9 @@ func c07Check(c c07Case) *Violation {
 
 func c07Classify(c c07Case) (bool, []string) {
 	labels := []string{"target:" + c.Target}
+	if c.Target == "scale" {
+		return true, append(labels, "shape:"+c.Shape)
+	}
 	if c.How != "" {
 		labels = append(labels, "how:"+strings.SplitN(strings.SplitN(c.How, " ", 2)[0], "+", 2)[0])
 		if strings.Contains(c.How, "+") {
@@ -745,8 +752,19 @@ func TestC07(t *testing.T) {
 		}
 	}
 	e2.done(true)
+	// growth rate: every input shape at n, 4n and 16n (c07scale_test.go); run before the bulk so that the machine
+	// is not saturated by this process's own work
+	e3 := enumPart(t, c07Prop, st, "growth-rate")
+	for _, name := range c07ShapeNames {
+		if !e3.try(c07Case{Target: "scale", Shape: name, Trunc: -1}) {
+			return
+		}
+	}
+	e3.done(true)
+	for _, n := range scaleNotes {
+		st.note("growth-rate %s", n)
+	}
 	rapidPart(t, c07Prop, st, "rapid", pick(12000, 100000), c07Gen)
-	_ = 0
 }
 
 // ---- native fuzz targets (thorough) --------------------------------------------------------------
